@@ -38,6 +38,16 @@ typedef struct { const void *obj; const uintptr_t *vptr; const uintptr_t *const 
 #define DYNAMIC_TYPE_OF(ref) g_dyn_id
 #define STATIC_TYPE_OF_T g_static_id
 #define STATIC_VPTR_OF_T g_static_vptr_T
+/* dynamic / static type of the argument expression itself: the object for a plain reference; for a smart pointer
+   (std::shared_ptr<T>) the smart pointer object, whose dynamic and static type are the same non-polymorphic type */
+#if YV_SMART_PTR
+type_id g_smart_typeid;
+#define DYNAMIC_TYPE_OF_EXPR(ref) g_smart_typeid
+#define STATIC_TYPE_OF_EXPR g_smart_typeid
+#else
+#define DYNAMIC_TYPE_OF_EXPR(ref) g_dyn_id
+#define STATIC_TYPE_OF_EXPR g_static_id
+#endif
 /* the class the virtual_ptr is declared for, with its cv-qualifiers: typeid ignores them, but static_vptr<const X>
    is a different variable from static_vptr<X>, and update() only ever writes the one of the registered class X */
 #define STATIC_TYPE_OF_DECLARED g_static_id
@@ -228,6 +238,9 @@ def make_final(cfg):
         X.Rule('&Policy::static_vptr<polymorphic_type>', r'&\s*Policy::template\s+static_vptr<polymorphic_type>', '(const uintptr_t *const *)&STATIC_VPTR_OF_T'),
         X.Rule('Policy::static_vptr<polymorphic_type>', r'Policy::template\s+static_vptr<polymorphic_type>', 'STATIC_VPTR_OF_T'),
         X.Rule('Policy::dynamic_type(rarg(obj))', r'Policy::dynamic_type\(\s*other_virtual_traits::rarg\(obj\)\s*\)', 'DYNAMIC_TYPE_OF(obj)'),
+        # the expression itself (not what it refers to through rarg): for a smart pointer that is the smart pointer object
+        X.Rule('Policy::dynamic_type(obj)', r'Policy::dynamic_type\(\s*obj\s*\)', 'DYNAMIC_TYPE_OF_EXPR(obj)'),
+        X.Rule('Policy::static_type<remove_cvref<Other>>()', r'Policy::template\s+static_type<\s*std::remove_cv_t<\s*std::remove_reference_t<Other>\s*>\s*>\(\)', 'STATIC_TYPE_OF_EXPR'),
         X.Rule('Policy::static_type<polymorphic_type>()', r'Policy::template\s+static_type<polymorphic_type>\(\)', 'STATIC_TYPE_OF_T'),
         X.Rule('Policy::error(error)', r'Policy::error\((\w+)\)\s*;', r'YV_POLICY_ERROR(\1);'),
         X.Rule('abort()', r'\babort\(\)\s*;', 'yv_abort();'),
@@ -305,8 +318,11 @@ def jobs(tier):
                   'Policy::dynamic_type / static_type<T>() / static_vptr<T> as opaque values with "one class per id"; static_vptr<cv T> is a distinct, never written variable (template statics are keyed by the cv-qualified type)',
                   'Policy::hash_type_id through its contract (fast: value; checked: rejects unregistered ids, units/hashing)',
                   'vptrs / indirect_vptrs as Skolem arrays holding publish_vptrs\' postcondition for the dynamic class (units/vptrs)']
-            for e, h, mc in (('ctor', 'h_ctor', 2), ('final', 'h_final', 1)):
-                out.append(Job(unit='virtual_ptr', config='%s-%s' % (e, name), c_text=c, entry=h, kind='proof', unwind=10, defines=defs,
+            variants = [('ctor', 'h_ctor', 2, 0), ('final', 'h_final', 1, 0)]
+            if '_EXPR' in exf.body and not cst:
+                variants.append(('final-smart-pointer', 'h_final', 1, 1))     # the code looks at the argument expression itself
+            for e, h, mc, smart in variants:
+                out.append(Job(unit='virtual_ptr', config='%s-%s' % (e, name), c_text=c, entry=h, kind='proof', unwind=10, defines=defs + ['YV_SMART_PTR=%d' % smart],
                                min_obligations=4, min_cover=mc, functions=fd, trusted=tr,
                                assumptions=['smart-pointer flavours (virtual_shared_ptr, make_virtual_shared) and cast<>() are C++ conversions outside the extracted code'],
                                extracted=[exc, exf, exv], props=['C09', 'C15', 'C16'], timeout=300))
@@ -314,7 +330,7 @@ def jobs(tier):
     c = (H.STATICS + H.GHOST + VP.VSHIM + TEXT.replace('@CTOR@', make_ctor(cfg).body).replace('@FINAL@', make_final(cfg).body)
          .replace('@VPTR@', make_vptr(cfg).body).replace('@COPIES@', cps))
     out.append(Job(unit='virtual_ptr', config='copy-constructors', c_text=c, entry='h_copies', kind='proof', unwind=10,
-                   defines=['NCLS=4', 'YV_FACET_HASH=1', 'YV_FACET_CHECKED=0', 'YV_FACET_INDIRECT=0', 'YV_FACET_RUNTIME_CHECKS=0', 'YV_CLASS_IS_CONST=0'],
+                   defines=['NCLS=4', 'YV_FACET_HASH=1', 'YV_FACET_CHECKED=0', 'YV_FACET_INDIRECT=0', 'YV_FACET_RUNTIME_CHECKS=0', 'YV_CLASS_IS_CONST=0', 'YV_SMART_PTR=0'],
                    min_obligations=3, min_cover=1,
                    functions=['include/yorel/yomm2/core.hpp virtual_ptr converting / copy / move constructors (member-initialiser lists)'],
                    trusted=['member-initialiser lists obj(e1), vptr(e2) as two assignments; std::move on a plain pointer is a copy'],
